@@ -240,6 +240,8 @@ def rule_accumulate_all(ctx, rep, rule_id="R-ACCUMULATE-ALL"):
                         continue
                     if any(p in names_in(x) for x in walk_no_nested(m.node) if isinstance(x, ast.Call)):
                         raise AnalysisError(f"{m.qname}: how the collection parameter `{p}` is stored is not understood")
+                    if any(isinstance(x, ast.Name) and x.id == p for st in m.node.body for x in ast.walk(st)):
+                        continue  # used in a way this rule does not follow (element-wise conversion into a local list, ...): no verdict
                     # the parameter is not used at all: an accumulator that accepts what a file / codemod reports and keeps nothing of it
                     n += 1
                     rep.check(rule_id, m.qname, m.loc(), False, f"{name}({p})",
